@@ -56,10 +56,14 @@ func c09Run(c c09Case) (v *verdict, prog *progen.Program, labels []string, descs
 	plain := sharedPlain()
 	box := h.NewCaseBox(dir, c.Cfg, h.LevelStd)
 	plainBin, garbledBin := filepath.Join(dir, "plain.bin"), filepath.Join(dir, "garbled.bin")
-	if r := plain.Go(src, nil, "build", "-o", plainBin, "."); !r.OK() {
+	var extra []string
+	if prog.LdFlags != "" {
+		extra = append(extra, "-ldflags="+prog.LdFlags)
+	}
+	if r := plain.Go(src, nil, append(append([]string{"build"}, extra...), "-o", plainBin, ".")...); !r.OK() {
 		rc.Abort("generated program does not build with the regular toolchain:\n%s", r.Brief())
 	}
-	g := box.Garble(c.Cfg, src, "build", "-o", garbledBin, ".")
+	g := box.Garble(c.Cfg, src, append(append([]string{"build"}, extra...), "-o", garbledBin, ".")...)
 	if !g.OK() {
 		return &verdict{Key: "C09/build-fails", Msg: fmt.Sprintf("garble %s build fails on a literal-carrying program:\n%s", c.Cfg.Key(), g.Brief())}, prog, labels, nil
 	}
